@@ -489,6 +489,11 @@ func findLoops(fn *ssa.Function) map[*ssa.BasicBlock]*loopInfo {
 				if _, isDbg := in.(*ssa.DebugRef); isDbg {
 					continue
 				}
+				if _, isPhi := in.(*ssa.Phi); isPhi {
+					// a phi carries the position of the variable's declaration (a named result
+					// declared in the signature would move the loop to the top of the function)
+					continue
+				}
 				if p := in.Pos(); p.IsValid() && p < li.minPos {
 					li.minPos = p
 				}
